@@ -1021,6 +1021,9 @@ class Component(
         # Required for compatibility with Django's {% extends %} tag
         # See https://github.com/django-components/django-components/pull/859
         context.render_context.push({BLOCK_CONTEXT_KEY: BlockContext()})
+        if render_state is not None:
+            # So that the layer can be removed also when this render fails before it gets to do that itself
+            render_state.update(render_context=context.render_context, render_context_depth=len(context.render_context.dicts) - 1)
 
         # By adding the current input to the stack, we temporarily allow users
         # to access the provided context, slots, etc. Also required so users can
@@ -1646,6 +1649,9 @@ class ComponentNode(BaseNode):
 # So we remove the entries of the failed component, and, if the component was the root,
 # also the entries of all the nested components that were created along the way.
 def _cleanup_failed_render(render_state: Dict[str, Any]) -> None:
+    if "render_context" in render_state:
+        # Leave the caller's `Context.render_context` as we found it
+        del render_state["render_context"].dicts[render_state["render_context_depth"] :]
     if "render_id" not in render_state:
         return
     render_ids = [render_state["render_id"]]
